@@ -233,7 +233,9 @@ PPL_OUTPUT_DEFINITIONS(Congruence)
 
 bool
 PPL::Congruence::ascii_load(std::istream& s) {
-  expr.ascii_load(s);
+  if (!expr.ascii_load(s)) {
+    return false;
+  }
 
   std::string str;
   if (!(s >> str) || str != "m") {
